@@ -219,21 +219,36 @@ partial def simulate (ctx : Ctx) (s : Sys) (fuel : Nat) : Sys :=
 def normalMake (c : Case) : List (CId × Nat × List NewTask) :=
   c.makeTab.filter fun e => (lookup0 c.pre.tasks e.2.1).isSome
 
+/-- the task an implicit task_dep for file `f` of a task yielded by creator `cB` points to, given the observed order
+    of creator evaluations: `add_implicit_task_dep` consults the GLOBAL target map at the moment `cB` is evaluated —
+    the targets of the statically loaded tasks, of the tasks `cB` yields itself, and of the tasks of every creator
+    evaluated before (a target registered later creates no dependency: "does NOT check if a delayed-task's target is a
+    file_dep from another previously created task") -/
+def implicitOwner (c : Case) (obs : List Ev) (cB : Nat) (f : Nat) : Option Nat :=
+  match lookup0 c.pre.targets f with
+  | some o => some o
+  | none =>
+    (normalMake c).findSome? fun e2 =>
+      let earlier : Bool :=
+        e2.1 == cB ||
+          (match obs.findIdx? (· == .creator e2.1), obs.findIdx? (· == .creator cB) with
+           | some i, some j => i < j
+           | _, _ => false)
+      if earlier then (e2.2.2.find? (fun n2 => n2.targets.contains f)).map (·.name) else none
+
 /-- the dependency table the created tasks are judged by: task_deps of the loaded / placeholder tasks, and of every
     task a creator yields (with the implicit dependency on the producer of a file_dep) -/
-def depsAll (c : Case) (st : FState) (t : Nat) : List Nat :=
-  let created := (normalMake c).flatMap fun e => e.2.2.filter (fun nt => nt.name == t)
+def depsAll (c : Case) (st : FState) (obs : List Ev) (t : Nat) : List Nat :=
+  let created := (normalMake c).flatMap fun e => (e.2.2.filter (fun nt => nt.name == t)).map fun nt => (e.1, nt)
   if created.isEmpty then
     (match lookup0 st.tasks t with | some td => td.deps | none => [])
   else
     -- a created task: the `executed` trigger is a dependency of the placeholder, not of the task that replaces it
-    created.flatMap fun nt =>
-      nt.deps ++ (nt.fileDep.filterMap fun f =>
-        ((normalMake c).findSome? fun e2 => (e2.2.2.find? (fun n2 => n2.targets.contains f)).map (·.name)))
+    created.flatMap fun (cB, nt) => nt.deps ++ (nt.fileDep.filterMap fun f => implicitOwner c obs cB f)
 
 /-- for the closure of the selection: a name stands for the placeholder AND for the task that replaces it -/
-def depsClosure (c : Case) (st : FState) (t : Nat) : List Nat :=
-  (match lookup0 st.tasks t with | some td => td.deps | none => []) ++ depsAll c st t
+def depsClosure (c : Case) (st : FState) (obs : List Ev) (t : Nat) : List Nat :=
+  (match lookup0 st.tasks t with | some td => td.deps | none => []) ++ depsAll c st obs t
 
 def closure (deps : Nat → List Nat) : Nat → List Nat → List Nat → List Nat
   | 0, _, acc => acc
@@ -293,7 +308,7 @@ def roots (c : Case) : List Nat :=
 /-- C15 `target` on an observed run (events oldest first) -/
 def targetOK (c : Case) (st? : Option FState) (obs : List Ev) (err : String) (exit : Nat) : Bool × String :=
   let stTasks : FState := st?.getD (fstate0 c.pre)
-  let allowed := closure (depsClosure c stTasks) 10000 (roots c) []
+  let allowed := closure (depsClosure c stTasks obs) 10000 (roots c) []
   let started := obs.filterMap fun e => match e with | .start n => some n | _ => none
   let outside := started.filter fun n => !allowed.contains n
   let ws := c.sel.getD []
@@ -372,12 +387,27 @@ def handle (j : Json) : Json :=
                             ("err", Json.str (errStr sim.susp)), ("exit", toJson (exitCode sim)),
                             ("susp", Json.str (reprStr sim.susp))]
     if op == "simulate" then Json.mkObj [("model", simJ), ("selected", ofNats st.selected)] else
-    let (res, left, best, bestS) := (dfs ctx (init inp) []).run (budget, 0, "")
+    -- `task.file_dep` is a set: the order in which `add_implicit_task_dep` appends the owners of two file_deps of one
+    -- created task is not fixed by doit.  Try the given order first, then the reversed one (for up to 3 such tasks).
+    let flipNames := ((c.makeTab.flatMap fun e => e.2.2.filterMap fun nt =>
+      if nt.fileDep.length ≥ 2 then some nt.name else none).eraseDups).take 3
+    let subsets : List (List Nat) := flipNames.foldl (fun acc x => acc ++ acc.map (x :: ·)) [[]]
+    let tryOne (flip : List Nat) (bud : Nat) :=
+      let c' : Case := { c with makeTab := c.makeTab.map fun e =>
+        (e.1, e.2.1, e.2.2.map fun nt => if flip.contains nt.name then { nt with fileDep := nt.fileDep.reverse } else nt) }
+      let inp' := inputOf c' st
+      (dfs { ctx with inp := inp' } (init inp') []).run (bud, 0, "")
+    let (res, left, best, bestS) := subsets.foldl (fun (acc : Option Sys × Nat × Nat × String) flip =>
+      match acc.1 with
+      | some _ => acc
+      | none =>
+        let r := tryOne flip acc.2.1
+        (r.1, r.2.1, max acc.2.2.1 r.2.2.1, if r.2.2.1 ≥ acc.2.2.1 then r.2.2.2 else acc.2.2.2)) (none, budget, 0, "")
     let startedOK := match res with
       | some s => (startedOf s).all (fun n => startedObs.contains n || s.running.contains n) &&
                   startedObs.all ((startedOf s).contains ·)
       | none => false
-    let deps := depsAll c st
+    let deps := depsAll c st obsAll
     let tgt := targetOK c (some st) obsAll obsErr obsExit
     let evd := evaluatedOK c st obsAll obsErr obsExit
     let rev := obsAll.reverse
